@@ -4,7 +4,7 @@
    op  = N,<kind n|l|d|c>,<data>   new node (handle = number of nodes so far)
        | S,p,key,c | D,p,key | U,p,<name=c+name=c|.> | G,p,key | C,p,key
        | H,n (read .hash) | F,n (update_hash(force=True)) | E,n (entries) | M,n (to_model)
-       | L,n (collect) | R,n (reset_collect) | W,n,<data> (node.data = data, no invalidation) | I,n (swhid().object_id)
+       | L,n (collect) | R,n (reset_collect) | W,n,<data> (node.data = data, no invalidation) | I,n (swhid().object_id) | Q,a,b (a == b)
    out = u | h<handle> | b0|b1 | x<hash> | e<name:data:hash+...> | n<handle:hash,...> | !<error>
    byte strings in hex ("." = empty).  The node hash function NH handed to
    the model is MD5 (OCaml's Digest) of an injective text encoding of
@@ -36,6 +36,7 @@ let parse_op (s : string) : op =
   | ["L"; x] -> OCollect (nat x) | ["R"; x] -> OReset (nat x)
   | ["W"; x; d] -> OWrite (nat x, bytes_of_hex d)
   | ["I"; x] -> OSwhid (nat x)
+  | ["Q"; a; b] -> OEq (nat a, nat b)
   | _ -> failwith "op"
 let show_err = function EKey -> "key" | EValue -> "value" | EAttr -> "attr" | EFuel -> "fuel" | EHandle -> "handle"
 let show_out (s : heap) (o : out) : string =
